@@ -352,6 +352,9 @@ def run(analysis: Analysis, tier: str) -> RuleResult:
         "CRC value, Intel-HEX decoding and reassembly equality are not decided.",
     ]
     fmt_rule(analysis, res)
+    from . import c10 as _c10
+
+    _c10.session_retention(analysis, res, "C09-R5")
     # what is served under (type, version) is the image the update call brought (C10's update rows, shared)
     from . import c10
 
